@@ -1,7 +1,7 @@
 (* Proofs for C11: the buffered handler is all-or-nothing (for every configuration, every component
    outcome, every request history against the buffer pool); the streamed handler is not. *)
 From Coq.Strings Require Import Byte String.
-From Coq Require Import List NArith Bool Lia.
+From Coq Require Import List NArith Bool Lia Permutation.
 Import ListNotations.
 From V Require Import lib.Bytes spec.HandlerSpec model.Handler.
 Open Scope N_scope.
@@ -215,3 +215,53 @@ Proof.
   split; [reflexivity|]. split; [reflexivity|]. split; [reflexivity|]. split; [reflexivity|].
   apply streamed_not_all_or_nothing; try reflexivity. discriminate.
 Qed.
+
+(* ---------- pool discipline under overlapping requests ---------- *)
+Lemma nth_error_remove_perm {A} (l : list A) : forall n b,
+  nth_error l n = Some b -> Permutation l (b :: remove_nth n l).
+Proof.
+  induction l as [|x l IH]; intros n b H; [destruct n; discriminate|].
+  destruct n; cbn in *.
+  - inversion H; subst. apply Permutation_refl.
+  - apply IH in H. eapply Permutation_trans; [apply perm_skip; exact H|]. apply perm_swap.
+Qed.
+
+Definition pinv (s : pstate) : Prop :=
+  NoDup (p_free s ++ p_held s) /\ Forall (fun x => (x < p_next s)%nat) (p_free s ++ p_held s).
+
+Lemma pstep_inv s e : single_release e = true -> pinv s -> pinv (pstep s e).
+Proof.
+  intros SR [ND LT]. destruct e as [pick|i|i]; [| |discriminate]; cbn.
+  - destruct (nth_error (p_free s) pick) as [b|] eqn:E; unfold pinv; cbn.
+    + assert (P : Permutation (p_free s ++ p_held s) (remove_nth pick (p_free s) ++ b :: p_held s)).
+      { eapply Permutation_trans; [apply Permutation_app_tail; apply (nth_error_remove_perm _ _ _ E)|].
+        cbn. apply Permutation_middle. }
+      split; [eapply Permutation_NoDup; eassumption|].
+      eapply Permutation_Forall; eassumption.
+    + assert (P : Permutation (p_next s :: p_free s ++ p_held s) (p_free s ++ p_next s :: p_held s))
+        by apply Permutation_middle.
+      split.
+      * eapply Permutation_NoDup; [exact P|]. constructor; [|assumption].
+        intros IN. rewrite Forall_forall in LT. apply LT in IN. lia.
+      * eapply Permutation_Forall; [exact P|]. constructor; [lia|].
+        eapply Forall_impl; [|exact LT]. cbn. intros; lia.
+  - destruct (nth_error (p_held s) i) as [b|] eqn:E; [|split; assumption]. unfold pinv; cbn.
+    assert (P : Permutation (p_free s ++ p_held s) (b :: p_free s ++ remove_nth i (p_held s))).
+    { eapply Permutation_trans; [apply Permutation_app_head; apply (nth_error_remove_perm _ _ _ E)|].
+      apply Permutation_sym. apply Permutation_middle. }
+    split; [eapply Permutation_NoDup; eassumption|].
+    eapply Permutation_Forall; eassumption.
+Qed.
+
+Lemma prun_inv tr : forallb single_release tr = true -> pinv (prun tr).
+Proof.
+  unfold prun. assert (I : pinv pinit) by (split; constructor).
+  revert I. generalize pinit. induction tr as [|e tr IH]; intros s I H; cbn in *; [assumption|].
+  apply andb_prop in H as [H1 H2]. apply IH; [apply pstep_inv; assumption|assumption].
+Qed.
+
+(* however requests overlap and whichever buffers the pool hands out: as long as each request releases
+   its buffer once, no two in-flight requests hold the same buffer, and no in-flight buffer is in the pool *)
+Theorem pool_discipline tr :
+  forallb single_release tr = true -> NoDup (p_free (prun tr) ++ p_held (prun tr)).
+Proof. intros H. apply (prun_inv tr H). Qed.
